@@ -117,6 +117,10 @@ def impl(c):
                 return simfile.load(f, strict=strict)
         out["load_open:" + n] = g(via_load)
         out["open:" + n] = g(lambda: simfile.open(p, strict=strict))
+        try:
+            simfile.open(p, encoding="cp1252", strict=False)       # part of the history: a caller naming an encoding says nothing about later calls
+        except Exception:
+            pass
         os.remove(p)
     # the tokenizer's own parameter list (trusted base of the property)
     try:
